@@ -260,7 +260,7 @@ def run(ctx, canary=False):
             continue
         if res["loss"] > res["l0"] * (1 + 1e-9) + 1e-9:
             ctx.violation("fit after %d iteration(s) with oracle %s is worse than the uniform start: loss %r vs %r" % (iters, oracle, res["loss"], res["l0"]),
-                          info, {"kind": "worse_than_uniform", "oracle": oracle, "iters": iters})
+                          info, {"kind": "worse_than_uniform", "oracle": oracle, "iters": iters, "few_iters": bool(iters <= 50)})
         if oracle == "convex" and res.get("mismatch", 0.0) >= 1.0 + 1e-9:
             ctx.violation("convex oracle: overlapping tables disagree by %r (L1, averaged over region-graph edges); the estimator enforces < 1" % res["mismatch"], info,
                           {"kind": "infeasible", "oracle": oracle})
